@@ -138,6 +138,7 @@ def explore_config(case):
     numapi.check_composed(res, B, alpha.reduced(selg, 12 if not is_dp else 8), [], case, "config", firsts=["inverse", "square", "log"], seconds=["log", "exp", "param_a"])
     numapi.check_aliasing(res, B, alpha.reduced(selg, 12 if not is_dp else 8), [], case, "config", ("log",), tol=1e-9)
     numapi.check_symbol_names(res, B, alpha.reduced(selg, 6), [], case, "config", ("log",), tol=1e-9)
+    numapi.check_history(res, B, alpha.reduced(selg, 8), [], case, "config", ["log"], ["to_Matrix", "inverse", "Ad"], tol=1e-9)
     numapi.check_threads(res, B, numapi.generic_pair(selg), [], case, "config", ("log",))
     if is_dp:
         gutil.check_product_by_position(res, B, alpha.reduced(selg, 10), [], case, "config", ("log",))
